@@ -39,6 +39,12 @@ type Program struct {
 	seamField     map[string]*seam                 // see seams.go
 	seamGlobal    map[string]*seam
 	afterFuncLike map[*ssa.Function]int // wrappers of time.AfterFunc -> index of the callback parameter
+	ifaceConv     map[*types.TypeName][]types.Type // load.go onlyConverted
+	ifaceOpen     map[*types.TypeName]bool
+	ctorCalls     map[*ssa.Function][][]ssa.Value // seams.go: arguments of every direct call, by callee
+	fnAsValue     map[*ssa.Function]bool
+	unsetHooks    map[string]bool       // hooks.go
+	hookIndex     *Index
 	constGlobals  map[*ssa.Global]bool  // effectively constant package-level variables (globals.go)
 }
 
@@ -373,7 +379,7 @@ func (p *Program) soleImplementer(t types.Type, m *types.Func) *ssa.Function {
 	}
 	impl, seen := p.soleImpl[key]
 	if !seen {
-		if impls := p.Implementers(n.Origin()); len(impls) == 1 {
+		if impls := p.Implementers(n.Origin()); len(impls) == 1 && p.onlyConverted(key, impls[0]) {
 			impl = impls[0]
 		}
 		p.soleImpl[key] = impl
@@ -390,6 +396,57 @@ func (p *Program) soleImplementer(t types.Type, m *types.Func) *ssa.Function {
 		}
 	}
 	return nil
+}
+
+// onlyConverted: every value the library converts to the interface iface has the concrete type impl (or a pointer to
+// it), and no value reaches the interface from another interface type: a type of another package (a *time.Timer
+// behind a one-method "stoppable") may satisfy an unexported interface just as well as the library's own type does.
+func (p *Program) onlyConverted(iface *types.TypeName, impl *types.Named) bool {
+	if p.ifaceConv == nil {
+		p.ifaceConv = map[*types.TypeName][]types.Type{}
+		p.ifaceOpen = map[*types.TypeName]bool{}
+		nameOf := func(t types.Type) *types.TypeName {
+			if n, ok := t.(*types.Named); ok {
+				if _, isI := n.Underlying().(*types.Interface); isI {
+					return n.Origin().Obj()
+				}
+			}
+			return nil
+		}
+		for _, fn := range p.Funcs {
+			for _, b := range fn.Blocks {
+				for _, in := range b.Instrs {
+					switch x := in.(type) {
+					case *ssa.MakeInterface:
+						if k := nameOf(x.Type()); k != nil {
+							p.ifaceConv[k] = append(p.ifaceConv[k], x.X.Type())
+						}
+					case *ssa.ChangeInterface:
+						if k := nameOf(x.Type()); k != nil {
+							p.ifaceOpen[k] = true
+						}
+					case *ssa.TypeAssert:
+						if k := nameOf(x.AssertedType); k != nil {
+							p.ifaceOpen[k] = true
+						}
+					}
+				}
+			}
+		}
+	}
+	if p.ifaceOpen[iface] {
+		return false
+	}
+	for _, t := range p.ifaceConv[iface] {
+		if pt, ok := t.(*types.Pointer); ok {
+			t = pt.Elem()
+		}
+		n, ok := t.(*types.Named)
+		if !ok || n.Origin().Obj() != impl.Origin().Obj() {
+			return false
+		}
+	}
+	return true
 }
 
 // TargetOf resolves a synthetic bound-method wrapper (x.m used as a value) to the method m; other functions to
